@@ -365,7 +365,7 @@ class NDOptPrefixInformation (NDOptionBase):
     if self.is_autonomous: f |= self.AUTONOMOUS_FLAG
     return f
 
-  def pack (self):
+  def _pack_body (self):
     s = struct.pack("!BBII", self.prefix_length, self.flags,
         self.valid_lifetime,self.preferred_lifetime)
     s += b'\x00' * 4
@@ -392,7 +392,7 @@ class NDOptMTU (NDOptionBase):
     offset += 2 + 4
     return offset,o
 
-  def pack (self):
+  def _pack_body (self):
     return struct.pack("!HI", 0, self.mtu)
 
 
